@@ -21,7 +21,7 @@ import (
 // A case is a little session: the first op builds the pieces, later ops work on them.
 //   newpieces pl=<n> np=<n> len=<L> files=<len>:<pad>:<name>,…   obs: ok <piece>;<piece>…  | panic
 //        piece = <length>|<fileIndex>:<offset>:<length>:<pad>:<name>+…      (name "" is printed 0)
-//   write piece=<i> buf=<hex>        obs: ok|err n=<n> files=<hex>/<hex>/P/…   | panic | nopiece
+//   write piece=<i> buf=<hex>        obs: ok|err n=<n> files=<hex>,<hex>,P,…   | panic | nopiece
 //   readat piece=<i> off=<o> n=<n>   obs: ok <hex> | short <k> <hex> | panic | nopiece
 //   readall piece=<i>                obs: results of readat for every 0<n, off+n<=piece length, `;`-joined
 //   jobs begin=<b> end=<e>           obs: <name>:<rangeBegin>:<length>:<pad>,… | - | panic
@@ -307,6 +307,23 @@ func geoStdNames(lens []int, pads []bool) []int {
 	return names
 }
 
+// geoSharedNames: every padding file takes the name of a neighbouring data file (NewInfo exempts
+// padding files from the duplicate-path check, so this is an accepted metainfo).
+func geoSharedNames(lens []int, pads []bool) []int {
+	names := geoStdNames(lens, pads)
+	for i := range names {
+		if !pads[i] {
+			continue
+		}
+		if i > 0 && !pads[i-1] {
+			names[i] = names[i-1]
+		} else if i+1 < len(names) && !pads[i+1] {
+			names[i] = names[i+1]
+		}
+	}
+	return names
+}
+
 func geoBuf(pieceIdx, n int, r *Rng) string {
 	b := make([]byte, n)
 	for k := range b {
@@ -403,6 +420,18 @@ func genGeometry(r *Rng, n int, tier string) []Case {
 					}
 					seen[first] = true
 					add(append([]string{first}, geoFollowUps(l, nil, 6)...))
+					// same layout, padding files named like a neighbouring data file: only the job list can differ
+					shared := geoSharedNames(lens, pads)
+					if k <= 3 && fmt.Sprint(shared) != fmt.Sprint(l.names) {
+						l2 := geoLayout{lens: lens, pads: pads, names: shared, pl: pl}
+						np := l2.np()
+						ops := []string{fmt.Sprintf("newpieces pl=%d np=%d len=%d files=%s", pl, np, l2.total(), l2.filesString()),
+							fmt.Sprintf("jobs begin=0 end=%d", np)}
+						if np > 1 {
+							ops = append(ops, fmt.Sprintf("jobs begin=1 end=%d", np), fmt.Sprintf("jobs begin=0 end=%d", np-1))
+						}
+						add(ops)
+					}
 				}
 			}
 		}
@@ -422,6 +451,9 @@ func genGeometry(r *Rng, n int, tier string) []Case {
 			pads[j] = r.Chance(30)
 		}
 		l := geoLayout{lens: lens, pads: pads, names: geoStdNames(lens, pads), pl: pl}
+		if r.Chance(25) {
+			l.names = geoSharedNames(lens, pads)
+		}
 		if r.Chance(70) {
 			// well formed
 			if l.total() == 0 {
